@@ -359,6 +359,63 @@ def history (t : Tables) (p1 p2 : Policy) (b1 : Behaviour) (now : List Cert) (of
   resume t p2 { cacheHit := (full t p1 b1).stored && offer, mechOK := mech, ecdhe := b1.ecdhe,
                 recorded := now, finishedOK := fin }
 
+/-! ### what the second connection of a history reports
+
+A server `Conn` starts with empty `peerCertificates` / `verifiedChains`.  In the source these fields
+are written by `processCertsFromClient` only, which runs on the client's Certificate message of a
+full handshake (`doFullHandshake`) and on the certificates recorded in the session once
+`checkForResumption` has returned true (`doResumeHandshake`).  `checkForResumption` itself only
+READS the cached session: when it declines — cache miss, the policy gate, or any of its remaining
+checks (`Resume.mechOK`: version, suite still offered and usable) — the connection is as fresh as
+before and the full handshake that follows on it is `full`, whatever the session contained. -/
+
+/-- whose certificate heads a list the connection reports -/
+inductive Owner where
+  | nobody
+  /-- the client of this connection (what its Certificate message carried) -/
+  | thisClient
+  /-- the client whose handshake created the session being resumed -/
+  | session
+  deriving DecidableEq, Repr, Inhabited
+
+/-- `ConnectionState()` of a server connection after `Handshake()` -/
+structure Report where
+  completed : Bool
+  /-- `checkForResumption` returned true (`DidResume` once completed) -/
+  resumed : Bool
+  /-- `len(PeerCertificates)` -/
+  peers : Nat
+  /-- `len(VerifiedChains) > 0` -/
+  chains : Bool
+  peerOwner : Owner
+  chainOwner : Owner
+  stage : Stage
+  /-- a CertificateRequest was sent (`none`: no full-handshake flight) -/
+  certReq : Option Bool
+  deriving DecidableEq, Repr, Inhabited
+
+def reportFull (r : Result) : Report :=
+  { completed := r.completed, resumed := false, peers := r.peerCerts, chains := r.chains,
+    peerOwner := if r.peerCerts == 0 then .nobody else .thisClient,
+    chainOwner := if r.chains then .thisClient else .nobody,
+    stage := r.stage, certReq := some r.certReq }
+
+/-- **The second connection of a history**, whichever way it goes: its ClientHello offers
+(`offer`) the session id announced in the first connection (behaviour `b1` under `p1`), the checks of
+`checkForResumption` that have nothing to do with client authentication hold or not (`mech`), and
+when the resumption is declined the client plays `b2` on the full handshake that follows. -/
+def second (t : Tables) (p1 p2 : Policy) (b1 : Behaviour) (now : List Cert) (offer mech : Bool)
+    (b2 : Behaviour) : Report :=
+  match history t p1 p2 b1 now offer mech b2.finishedOK with
+  | .notResumed => reportFull (full t p2 b2)
+  | .resumedDone n ch =>
+    { completed := true, resumed := true, peers := n, chains := ch,
+      peerOwner := if n == 0 then .nobody else .session,
+      chainOwner := if ch then .session else .nobody, stage := .done, certReq := none }
+  | .resumedFailed s =>
+    { completed := false, resumed := true, peers := 0, chains := false, peerOwner := .nobody,
+      chainOwner := .nobody, stage := s, certReq := none }
+
 /-- the client behaviour that created a session, as far as the session still shows it: the
 recorded certificates (re-judged now); a session only ever records certificates of a completed
 handshake, whose CertificateVerify was therefore checked under the first certificate's key
